@@ -14,6 +14,20 @@ Invoked by tools/vcheck.py like a harness engine:  io_variants.py io --out DIR -
 """
 import json, os, random, shutil, subprocess, sys
 
+def _find_zstd():
+    """the reference `zstd` command line tool: on PATH, or in the places this sandbox is known to keep it"""
+    import shutil as _sh
+    p = _sh.which("zstd")
+    if p:
+        return p
+    for c in ("/root/miniconda/bin/zstd", "/usr/bin/zstd", "/usr/local/bin/zstd", "/opt/conda/bin/zstd", "/venv/bin/zstd"):
+        if os.path.exists(c):
+            return c
+    return "zstd"
+
+
+ZSTD = _find_zstd()
+
 VERIF = os.path.dirname(os.path.dirname(os.path.abspath(__file__)))
 BUILD = os.path.join(VERIF, "build")
 HARNESS = os.path.join(VERIF, "harness")
@@ -72,7 +86,7 @@ def make_reference_frames(d, seed, thorough):
         raw = os.path.join(d, name + ".raw")
         with open(raw, "wb") as f:
             f.write(data)
-        p = subprocess.run(["zstd", "-q", "-f"] + opts + [raw, "-o", os.path.join(d, name + ".zst")], stdout=subprocess.PIPE, stderr=subprocess.STDOUT)
+        p = subprocess.run([ZSTD, "-q", "-f"] + opts + [raw, "-o", os.path.join(d, name + ".zst")], stdout=subprocess.PIPE, stderr=subprocess.STDOUT)
         if p.returncode == 0:
             n += 1
         else:
@@ -87,7 +101,7 @@ def make_reference_frames(d, seed, thorough):
         with open(os.path.join(sd, f"s{k:03d}"), "wb") as f:
             f.write(bytes(buf))
     dpath = os.path.join(d, "reference.dict")
-    p = subprocess.run(["zstd", "-q", "--train", "--maxdict=4096"] + sorted(os.path.join(sd, x) for x in os.listdir(sd)) + ["-o", dpath], stdout=subprocess.PIPE, stderr=subprocess.STDOUT)
+    p = subprocess.run([ZSTD, "-q", "--train", "--maxdict=4096"] + sorted(os.path.join(sd, x) for x in os.listdir(sd)) + ["-o", dpath], stdout=subprocess.PIPE, stderr=subprocess.STDOUT)
     if p.returncode == 0 and os.path.exists(dpath):
         for name, size in (("dict_small", 500), ("dict_3k", 3000)):
             buf = bytearray()
@@ -96,7 +110,7 @@ def make_reference_frames(d, seed, thorough):
             raw = os.path.join(d, name + ".raw")
             with open(raw, "wb") as f:
                 f.write(bytes(buf[:size]))
-            q = subprocess.run(["zstd", "-q", "-f", "-3", "-D", dpath, raw, "-o", os.path.join(d, name + ".zst")], stdout=subprocess.PIPE, stderr=subprocess.STDOUT)
+            q = subprocess.run([ZSTD, "-q", "-f", "-3", "-D", dpath, raw, "-o", os.path.join(d, name + ".zst")], stdout=subprocess.PIPE, stderr=subprocess.STDOUT)
             if q.returncode == 0:
                 n += 1
             else:
